@@ -192,9 +192,14 @@ func runOBJBuild(r *runner, work *choice.Source) (fs []Finding) {
 	if f := r.ref(func() { want = digest() }); f != nil {
 		return []Finding{*f}
 	}
+	rseed := int64(work.U64() >> 1)
+	if len(tris) > 3 {
+		r.st.MapDep = "QuantizedTriangleColor clusters Mesh.TriangleSlice() in the iteration order of the face set (a Go map)"
+	}
 	if f := r.simN(workers, sticky, nil, func() {
 		got = digest()
 		if len(tris) > 3 {
+			rand.Seed(rseed) // the global generator is part of the simulation: k-means initialisation draws from it
 			// clustering draws from the global RNG: race and termination oracle only
 			model3d.BuildQuantizedMaterialOBJ(tris, 2, cf)
 			toolbox3d.CoordColorFunc(func(c model3d.Coord3D) render3d.Color {
